@@ -5,8 +5,10 @@ ids = [json.loads(l)["id"] for l in open("/verif/properties.jsonl")]
 TECH = "symbolic execution of the real code's go/ssa (own executor /verif/symx) + SMT (QF_BV, cvc5 1.0.3 incremental); counterexamples replayed natively"
 NOTE_COMMON = ("Trusted: go/ssa + go/types (x/tools v0.50.0, go1.26.8) translate the source faithfully; cvc5 answers are correct (thorough tier cross-checks the query transcript with z3); "
                "the executor's models of the stubbed library calls listed in evidence.stubs_hit. Every run validates sampled paths by executing the solver's model natively and comparing observations. ")
-FAM = ("Grammars are an enumerated family regenerated on every run with the peg built from /repo's working tree (bounded-exhaustive expressions of size <= 3 (quick) / <= 4 sampled (thorough), "
-       "every terminal kind in 18 contexts, ~40 curated shapes, multi-rule outlines); the solver quantifies over ALL inputs of length 0..N (N=4 quick, 5 thorough), each rune any Unicode scalar value, and over the predicate switches. ")
+FAM = ("Grammars are an enumerated family regenerated on every run with the peg built from /repo's working tree (every well-formed expression of size <= 3 (quick) / <= 4 (thorough) over a small leaf set, "
+       "24 terminal kinds in 18 contexts, ~60 curated shapes, an end-of-input lookahead layer, multi-rule outlines: ~610 grammars quick, ~3200 thorough); the solver quantifies over ALL inputs of length 0..N "
+       "(N=5 quick, 6-7 thorough; one more on the curated shapes), each rune any Unicode scalar value, and over the predicate switches. A long-input layer (11 loop/recursion grammars, one with 260 rules) adds inputs of "
+       "17..260 runes (thorough: up to 1000, and 65535/65536 where the token count is constant) that are a concrete filler except for two arbitrary runes. ")
 ORACLE = "Oracle: an independent ~300-line transcription of PEG semantics (vhlib/ref) executed symbolically on the same input. "
 def g(text, extra=""):
     return dict(text=text, note=NOTE_COMMON + FAM + extra, design="DESIGN.md 4")
@@ -17,20 +19,20 @@ checks = {
  "C03": g("The real parser's Tokens() after every accepting path are compared element-wise (rule, begin, end in runes) with the post-order derivation of the reference semantics. " + ORACLE),
  "C04": g("Execute() of the real parser with probe actions is run symbolically; the recorded trace (action number, begin, end, text as a symbolic string) must equal the derivation's action list with the most recent preceding capture; a second Execute must repeat it."),
  "C05": g("AST() is walked (up/next) and compared with the tree defined directly from the token spans; SprintSyntaxTree output (fmt/strconv.Quote modelled, Quote uninterpreted) must equal the expected lines; AST/print must not disturb the tokens."),
- "C06": g("The same generated parser is run with and without DisableMemoize on the same symbolic input: verdict, tokens, printed tree and (on failure) the error token must agree, and agree with the reference; evidence counts paths on which the reference re-entered a (rule, offset) pair (memo hits)."),
+ "C06": g("The same generated parser is run with and without DisableMemoize on the same symbolic input (fresh, and reused after a first input and Reset): verdict, tokens, printed tree and (on failure) the error token must agree, and agree with the reference; evidence counts paths on which the reference re-entered a (rule, offset) pair (memo hits)."),
  "C07": g("The four -noast variants are run next to the default parser: verdicts must agree on every path; for -noast and -noast -inline the inline action trace (action number, text) must equal the reference's evaluation-order trace; under -switch each event's text must be a span of the input."),
  "C11": g("Failing paths: err != nil iff the reference rejects; the error token equals the reference's first non-empty token reaching the furthest end and lies in the input; Error() is executed symbolically (fmt/Quote modelled) and must name the rule, the 1-based line/column of begin and end (newline placement is a solver variable) and quote exactly input[begin:end]; also after Reset with a second input."),
  "C12": g("One long-lived parser is fed 2 (thorough: 3) independent symbolic inputs via Buffer/Reset and compared step by step (verdict, tokens, action trace, printed tree, error token and message) with a fresh parser; Size in {unset,1,64}; the four instantiations uint16/uint32/uint64/uint x Size {unset,0,1,64} must agree.",
-          "Histories of <= 3 inputs of <= 3 runes; a defect that needs a 65535-rune input (position wrap in uint16) is outside the bound. "),
+          "Histories of <= 3 fully symbolic inputs of <= 3 runes; on the long-input layer also reuse across lengths (L then 2, 2 then L, L twice) and the narrow instantiations at the edge of their range: uint8 at 100..255 runes, uint16 at 255..300 (thorough 65534, 65535), compared with uint32. 'Fits U' is read as: rune count and token count fit. "),
  "C13": g("All eight option sets of every family grammar are run on every input up to N runes (incl. U+0000, U+FFFD, non-BMP, U+10FFFF as solver-chosen values): any Go panic (nil dereference, index/slice out of range) on any path is a violation; token and error-token spans must lie in [0, len(runes)]; Error(), the printers and Execute are exercised.",
-          "Very long inputs are outside the bound (N <= 5). "),
+          "'Very long' is covered only through the long-input layer (all but two runes concrete); fully symbolic inputs have N <= 7. Thorough also runs the shipped calculator/fexl/longtest grammars (no panic, spans inside the input). "),
  "C14": g("Two instances (same parser type, two different parser packages, and two instances initialised with the SAME option values) make their API calls (init, parse, execute/print/error) in every merge order of the enumerated set; each instance's observables must equal its run-alone observables and the actors' heap footprints must be write-disjoint.",
           "Non-interference argument (disjoint write footprints => any real schedule is equivalent to a sequential one), not scheduler exploration; sync.Pool is modelled as handing out the most recently Put item. "),
  "C10": dict(
-   text="The shipped front end (peg.peg.go with the real tree-builder actions) is executed symbolically on 25 templates of documented constructs whose 1-3 hole characters are solver variables (any code point), and on a valid header followed by K arbitrary characters; "
+   text="The shipped front end (peg.peg.go with the real tree-builder actions) is executed symbolically on 27 templates of documented constructs whose 1-3 hole characters are solver variables (any code point), and on K arbitrary characters after a valid header, inside an action, inside a class and after the last rule; "
         "next to it an independent recursive-descent reader of the documented syntax (vhlib/pegread) runs on the same text: accept/reject must agree, the tree reachable through the exported accessors must denote what the reader denotes "
         "(escapes incl. octal/hex code points, case-insensitive expansion, negation, precedence, comments, arrows, imports, nested braces), an accepted text must leave a well-formed tree (no corrupted builder stack), and nothing may panic.",
-   note=NOTE_COMMON + "Bounds: templates + holes, tails K <= 2 (quick) / 3 (thorough). Assumed away where the documentation is silent: upper-case escape letters, non-ASCII letters in \"...\" / [[...]], ']' '-' '^' '\\' as raw class members. Sequence and choice are compared up to associativity.",
+   note=NOTE_COMMON + "Bounds: templates + holes, tails K <= 2 (quick) / 3 (thorough). Assumed away where the documentation is silent: upper-case escape letters, a caret directly followed by the closing bracket ('[^]'), non-ASCII letters in \"...\" / [[...]], ']' '-' '^' '\\' as raw class members. Sequence and choice are compared up to associativity.",
    design="DESIGN.md 4/C10"),
  "C17": dict(
    text="REDUCED CLAIM: the front end is regenerated from peg.peg under the four -inline/-switch option sets with the peg built from the working tree (must succeed under -strict); the four regenerated front ends and the checked-in peg.peg.go are executed symbolically on the same grammar text with K symbolic characters: "
@@ -42,7 +44,7 @@ checks = {
         "with the operator labels (? * + & ! <>, choice/sequence, terminal kinds), -inline and Strict as solver variables, against an independent analysis (definedness, reachability, Ford-style left recursion incl. nullable prefixes and all operators): "
         "'used but not defined' and 'defined but not used' must name exactly the right rules, a left-recursive rule must be named and no left-recursion warning may appear in a grammar without one, "
         "Strict turns any diagnostic into an error, a clean grammar is silent, a duplicate definition is diagnosed without a crash.",
-   note=NOTE_COMMON + "Skeletons: 1-3 rules, 7 body shapes, every wiring of name leaves for one rule and seeded samples for 2-3 rules; text/template, go/parser, go/printer stubbed; labels are concretised where the code indexes by them (exhaustive per skeleton). The -strict exit status is C18's harness.",
+   note=NOTE_COMMON + "Skeletons: 1-3 rules, 7 body shapes, every wiring of name leaves for one rule, seeded samples for 2-3 rules, curated recursive-reference-behind-a-second-rule pairs, 14x14 duplicate-definition pairs; text/template, go/parser, go/printer stubbed; labels are concretised where the code indexes by them (exhaustive per skeleton). The -strict exit status is C18's harness.",
    design="DESIGN.md 4/C15"),
  "C09": dict(
    text="REDUCED CLAIM (DESIGN.md 5): on the C15 skeletons one generation is run with its two analysis tasks in both orders (symbolic boolean) and every map range in every permutation, each task under its own actor: "
@@ -54,12 +56,12 @@ checks = {
    text="Bounded model checking of the real set/set.go: every exported operation after every history of <= k AddRange/Add calls with ARBITRARY arguments over all code points "
         "(membership, union, intersects, complement, extensional equality, operands unmodified, no aliasing) and over a small universe for Len/String; the solver quantifies over all endpoints, limits and probe elements. "
         "Right level because the interval list's case analysis only goes wrong for particular orderings/boundaries, which are solver variables here.",
-   note=NOTE_COMMON + "Bounds: histories of <= 2 (quick) / <= 4 (thorough) insertions per set; Len over elements 0..7, String over 0..5; precondition 0 <= begin <= end <= 0x10FFFF.",
+   note=NOTE_COMMON + "Bounds: histories of <= 2-3 (quick) / <= 4 (thorough) insertions per set, plus one step (AddRange, every read-only operation) from an ARBITRARY valid interval list of <= 3 (thorough 4) intervals, which covers histories of any length reaching such lists; Len over elements 0..7, String over 0..5; precondition 0 <= begin <= end <= 0x10FFFF; Complement with elements on both sides of the limit.",
    design="DESIGN.md 4/C16"),
  "C18": dict(
    text="main.main/getIO/parse are executed symbolically under a nondeterministic environment: flags are symbolic booleans, every open/read/parse/compile/flush/close outcome is a fresh symbolic boolean, "
         "so every combination of faults is explored; exit status 0 must imply no fault, the requested source and destination, a truncating open and the options reaching the generator. Sampled paths and every counterexample are re-run with the REAL binary in a matching real environment.",
-   note=NOTE_COMMON + "The front end and Compile are stubs here (A-COMPILE: Compile returns nil only after the formatted parser was written to out); a failing Close cannot be injected natively; flag parsing is stubbed.",
+   note=NOTE_COMMON + "The front end and Compile are fault points here; that Compile returns nil only after the whole formatted parser was accepted by the destination writer is checked separately by running the real Compile into a writer that may reject any write (entry CompileWrites). Environment facts (missing input, not a regular file, newer destination) are symbolic choices distinct from faults. Flag parsing is stubbed.",
    design="DESIGN.md 4/C18"),
 }
 NA = {
